@@ -93,6 +93,9 @@ def parse_dump(out):
             # q cls kind mode nslist via spelling num result...
             d["queries"].append({"cls": w[1], "kind": w[2], "mode": w[3], "ns": w[4], "via": w[5], "name": w[6],
                                  "num": int(w[7]), "res": " ".join(w[8:])})
+        elif t == "cmddelay":
+            d.setdefault("cmddelay", []).append({"cls": w[1], "name": w[2], "index": int(w[3]), "top": w[4] == "1",
+                                                 "accepted": w[5] == "1", "pending": w[6] == "1"})
         elif t == "enddispatch":
             seen_enddispatch = True
             if int(w[1]) != len(d["queries"]):
@@ -481,6 +484,9 @@ def check(res, tier, seed):
     res.cov["samples"] += [dict(q) for q in d["queries"][:2] + d["queries"][len(d["queries"]) // 2:len(d["queries"]) // 2 + 2]]
     res.cov["model_detail"] = {"find_event_info_as_modelled": stats.get("find_event_info_as_modelled"),
                                "return_path_queries_differing_from_model": stats.get("return_path_differs_from_model", 0)}
+    cdl = d.get("cmddelay", [])
+    res.cov["commanddelay_probe"] = {"commands": len(cdl), "posted": sum(1 for x in cdl if x["pending"]),
+                                     "dropped": [x for x in cdl if not x["pending"]]}
     if d["probes"]:
         res.notes.append("FindEventInfo(eventName_t) (test `s < eventDefName.size()`) returns null for the highest name index %s: "
                          "Listener::CommandDelay, SpawnArgs keys and the compiler's getter/setter resolution on game/level/local/parm/self/group "
